@@ -3,7 +3,8 @@ META = {
              "large values; a case is one call of the real thejoker.utils.batch_tasks checked by the "
              "partition contract (contiguous, non-empty, ordered, exact cover of the range / of "
              "arr[start:start+n], own start index per task). A second monitor drives the real "
-             "multiproc_helpers.run_worker with a capturing pool and unsorted / repeated index arrays and demands "
+             "multiproc_helpers.run_worker and marginal_ln_likelihood_helper with a capturing pool and unsorted / "
+             "repeated / shuffled-contiguous index arrays and demands "
              "that the tasks handed to pool.map cover the supplied array in the supplied order (and that the "
              "results come back in task order). distinct_nontrivial counts distinct "
              "(n_tasks, n_batches, start_idx, arr?) tuples with n_batches>1 and n_tasks>1."),
@@ -115,9 +116,11 @@ def run(ctx):
         def __init__(self):
             self.tasks = None
 
+        answer = None
+
         def map(self, worker, tasks):
             self.tasks = [tuple(t) for t in tasks]
-            return [worker(t) for t in tasks]
+            return [(self.answer or worker)(t) for t in tasks]
 
     def ident(task):
         body = task[0]
@@ -126,7 +129,8 @@ def run(ctx):
     rng = ctx.rng(1)
     for k in range(ctx.n(300, 3000)):
         nb = int(rng.choice([1, 2, 3, 5, 8, 13, 97, 120]))
-        kindq = str(rng.choice(["idx-shuffled", "idx-repeats", "idx-sorted", "count", "all"]))
+        kindq = str(rng.choice(["idx-shuffled", "idx-repeats", "idx-sorted", "idx-perm-of-block", "count", "all"]))
+        via = "run_worker" if rng.random() < 0.6 else "marginal_ln_likelihood_helper"
         pool = CapturePool()
         kw = dict(n_batches=nb if rng.random() < 0.8 else None)
         if kindq == "count":
@@ -140,15 +144,27 @@ def run(ctx):
             want = rng.choice(Nlib, size=n, replace=(kindq == "idx-repeats"))
             if kindq == "idx-sorted":
                 want = np.sort(want)
+            elif kindq == "idx-perm-of-block":
+                # a shuffled contiguous block (what randomize_prior_order produces over a whole library)
+                a = int(rng.integers(0, Nlib - 1)) if rng.random() < 0.5 else 0
+                b = int(rng.integers(a + 2, Nlib + 1)) if rng.random() < 0.5 else Nlib
+                want = rng.permutation(np.arange(a, b))
             kw["samples_idx"] = want.copy()
-        case = dict(kind=kindq, n_batches=kw["n_batches"], n=int(len(want)), head=want[:8])
+        case = dict(kind=kindq, n_batches=kw["n_batches"], n=int(len(want)), head=want[:8], via=via)
         try:
-            res = mh.run_worker(ident, pool, path, task_args=(), **kw)
+            if via == "run_worker":
+                res = mh.run_worker(ident, pool, path, task_args=(), **kw)
+            else:
+                # one level up: the helper every likelihood evaluation goes through (the pool answers in place of the
+                # real worker with the row numbers each task names)
+                pool.answer = ident
+                res = [np.asarray(mh.marginal_ln_likelihood_helper(joker_helper=None, prior_samples_file=path, pool=pool, **kw))]
         except Exception as e:
             ctx.exception(e, "run_worker", case)
             continue
         ctx.evaluations += 1
         ctx.distinct_count += 1 if k < 40 else 0
+        ctx.count("pool_batches_via_" + via)
         got_tasks = np.concatenate([ident(t) for t in pool.tasks]) if pool.tasks else np.array([])
         if got_tasks.shape != want.shape or not np.array_equal(got_tasks, want):
             key = "pool-batches-reordered" if sorted(got_tasks.tolist()) == sorted(want.tolist()) else "pool-batches-wrong-coverage"
